@@ -239,7 +239,8 @@ def check(ctx):
     shapes.sort(key=vkey)
     nshapes = 4 if quick else 12
     # the first set has two ECUs with three boots each: >= 4 lifecycles for the multi-id --lcs selections
-    many = [s for s in shapes if s["tie"] == "none" and s["boots"] == 3 and len(set("".join(s["ecus"]))) == 2 and not s["dup"]]
+    # ... and its files have ECU sets that are subsets of each other (AB next to A / B): the stream partition must not merge them
+    many = [s for s in shapes if s["tie"] == "none" and s["boots"] == 3 and s["ecus"] in (["AB", "B"], ["A", "B", "AB"]) and not s["dup"]]
     first = rnd.choice(many)
     chosen = [first] + [s for s in pick_shapes(shapes, nshapes, rnd) if s != first][:nshapes - 1] + pick_tied(shapes, 2 if quick else 8, rnd)
     plan = []
